@@ -8,6 +8,7 @@ from .. import bits, fields
 from ..core import call_attr, calls_in, const, dotted, is_const, kwarg, norm, slice_parts, text, walk_local
 
 EXPLANATION = [
+    'C01.zero-valid: fields declared `int | None` in the anchored modules are tested for presence with `is None` / `is not None`, never by truthiness, so 0 (sequence number 0, time stamp 0, length 0) is handled like any other value.',
     'C01.signed-names: every HCI field named *rssi* or *tx_power* is declared with a signed spec (they are signed octets in the specification).',
     'C01.family-registries: every sub-event family (LE Meta, vendor) owns its dispatch table, so an unknown sub-event of one family can never be parsed as a class of another; every from_parameters factory that rebuilds an object from its fields also keeps the received parameter bytes.',
     'C01.codec-arms: HCI_Object.parse_field and serialize_field are sibling `match` tables over the same spec literals; per literal the '
@@ -245,8 +246,38 @@ def hci_fields(ctx):
         rets = [r.value for r in walk_local(pw) if isinstance(r, ast.Return)]
         ok = rets and isinstance(rets[0], ast.Tuple) and norm(rets[0].elts[0]) == 'offset + 6' and 'data[offset:offset + 6]' in norm(rets[0].elts[1])
         R.check(ok, rule, f'{H}.Address.parse_address_with_type', 'consumes 6 bytes = the slice handed to the constructor', 'address parser advance and slice width differ', p.loc(pw))
-        pt = p.find(f'{H}.Address.parse_address_preceded_by_type')
-        R.check(pt is not None and 'data[offset - 1]' in norm(pt), rule, f'{H}.Address.parse_address_preceded_by_type', 'type read from the byte just before the address', 'address type is not read from offset - 1', p.loc(pt) if pt else '')
+    # the type-less address parsers fix the type their name says (fields serialised without a type byte: classic
+    # addresses are public, resolvable private addresses are random); the type-preceded one reads the byte before the address
+    FIXED = {'parse_address': 'PUBLIC_DEVICE_ADDRESS', 'parse_random_address': 'RANDOM_DEVICE_ADDRESS'}
+    for nm, want in FIXED.items():
+        fn = p.find(f'{H}.Address.{nm}')
+        if fn is None:
+            R.bad(rule, f'{H}.Address.{nm}', 'anchor missing')
+            continue
+        calls = [c for c in calls_in(fn) if call_attr(c) in ('parse_address_with_type',) or dotted(c.func) in ('cls', 'Address')]
+        got = [text(c.args[-1]).split('.')[-1] if c.args else (text(kwarg(c, 'address_type')).split('.')[-1] if kwarg(c, 'address_type') is not None else '?') for c in calls]
+        R.check(got == [want], rule, f'{H}.Address.{nm} | fixed type', f'addresses parsed by {nm} are {want}', f'{nm} gives the parsed address the type {got}, not {want}: a field built with one address type parses back with another', p.loc(fn))
+    pt = p.find(f'{H}.Address.parse_address_preceded_by_type')
+    if pt is not None:
+        ok = any(isinstance(n, ast.Assign) and 'data[offset - 1]' in norm(n.value) for n in walk_local(pt)) and any(call_attr(c) == 'parse_address_with_type' and c.args and norm(c.args[-1]) == 'address_type' for c in calls_in(pt))
+        R.check(ok, rule, f'{H}.Address.parse_address_preceded_by_type', 'type = the byte before the address, handed to the constructor', 'the type byte preceding an address is not applied', p.loc(pt))
+    # hand-written codecs: an address that has a type field next to it is parsed together with that type
+    hm = p.modules.get(H)
+    n_hand = 0
+    for q, ci in sorted(p.classes.items()):
+        if ci.module is not hm:
+            continue
+        fp = ci.methods.get('from_parameters')
+        if fp is None:
+            continue
+        assigned = {dotted(n.targets[0]): n.value for n in walk_local(fp) if isinstance(n, ast.Assign) and len(n.targets) == 1 and isinstance(n.targets[0], ast.Name)}
+        for nm, val in sorted(assigned.items()):
+            if nm.endswith('_address') and f'{nm}_type' in assigned:
+                n_hand += 1
+                t = norm(val)
+                ok = 'parse_address_preceded_by_type' in t or f'{nm}_type' in t
+                R.check(ok, rule, f'{q}.from_parameters | {nm}', f'{nm} is parsed together with {nm}_type', f'`{nm} = {t[:80]}` ignores {nm}_type: every peer address parses back as the constructor\'s default type (a public peer becomes random)', p.loc(fp))
+    R.check(n_hand >= 1, rule, f'{H} | hand-written address fields', f'{n_hand} typed address field(s) in hand-written codecs', 'no hand-written typed address field found')
     cf = p.cls(f'{H}.CodingFormat')
     if cf is not None and 'parse_from_bytes' in cf.methods and '__bytes__' in cf.methods:
         f1, _ = _fmt_in(cf.methods['parse_from_bytes'])
@@ -573,7 +604,13 @@ def signed_names(ctx):
     R.check(n >= 15, rule, f'{H} | signed quantities', f'{n} rssi / tx_power fields', f'only {n} such fields found')
 
 
+def zero_valid_rule(ctx):
+    from ..zero_valid import zero_valid
+    zero_valid(ctx, 'C01.zero-valid', ['bumble.hci'])
+
+
 RULES = [
+    ('C01.zero-valid', zero_valid_rule),
     ('C01.signed-names', signed_names),
     ('C01.family-registries', family_registries),
     ('C01.codec-arms', codec_arms),
